@@ -45,6 +45,22 @@ Proof.
   rewrite (digits_no_char _ _ nul_not_digit (n_to_dec_digits _)). reflexivity.
 Qed.
 
+(* a valid denomination (letters, digits and / : . _ -) does not contain the key terminator *)
+Lemma all_chars_no_char (f : ascii -> bool) c s : f c = false -> all_chars f s = true -> no_char c s = true.
+Proof.
+  intros Hc. induction s as [|x r IH]; cbn [all_chars no_char]; [reflexivity|].
+  intros H. apply andb_true_iff in H as [Hx Hr]. rewrite (IH Hr), andb_true_r.
+  destruct (Ascii.eqb x c) eqn:E; [|reflexivity]. apply Ascii.eqb_eq in E. subst x. congruence.
+Qed.
+Lemma valid_denom_no_nul d : valid_denom d = true -> key_str_ok d = true.
+Proof.
+  destruct d as [|c r]; [discriminate|]. cbn [valid_denom]. intros H.
+  apply andb_true_iff in H as [H _]. apply andb_true_iff in H as [H _]. apply andb_true_iff in H as [Hc Hr].
+  unfold key_str_ok. cbn [no_char].
+  rewrite (all_chars_no_char is_denom_char "000"%char r eq_refl Hr), andb_true_r.
+  destruct (Ascii.eqb c "000") eqn:E; [|reflexivity]. apply Ascii.eqb_eq in E. subst c. discriminate.
+Qed.
+
 (* ---------- the statistics part ---------- *)
 Lemma ccid_ok_some c : ccid_ok c = true -> exists x, c = Some x /\ ccid_valid x = true.
 Proof. destruct c as [x|]; cbn; [eauto|discriminate]. Qed.
@@ -60,7 +76,8 @@ Proof.
   match goal with Hd : ccid_ok (ga_dst a) = true |- _ => destruct (ccid_ok_some _ Hd) as (d & Ed & Vd) end.
   exists s, d. repeat split; try assumption.
   unfold set_amount. rewrite Es, Ed. cbn [ccid_or_zero].
-  destruct (ccid_id_no_nul _ Vs) as [K1 _]. destruct (ccid_id_no_nul _ Vd) as [_ K2]. rewrite K1, K2. cbn [andb negb].
+  destruct (ccid_id_no_nul _ Vs) as [K1 _]. destruct (ccid_id_no_nul _ Vd) as [_ K2].
+  match goal with Hv : valid_denom (ga_denom a) = true |- _ => rewrite K1, K2, (valid_denom_no_nul _ Hv) end. cbn [andb negb].
   unfold parse_ccid. rewrite (ccid_roundtrip_with is_domain_string d Vd). reflexivity.
 Qed.
 
@@ -201,7 +218,7 @@ Definition amt_ok (e : akey * (Z * Z)) : Prop :=
   let k := fst e in
   ccid_valid {| c_proto := ak_sp k; c_cp := ak_sc k |} = true /\
   (exists d, ccid_valid d = true /\ ak_dst k = ccid_id d) /\
-  ak_denom k <> "" /\ 0 <= fst (snd e) /\ 0 <= snd (snd e) /\ (0 < fst (snd e) \/ 0 < snd (snd e)).
+  valid_denom (ak_denom k) = true /\ 0 <= fst (snd e) /\ 0 <= snd (snd e) /\ (0 < fst (snd e) \/ 0 < snd (snd e)).
 Definition cnt_ok (e : ckey * Z) : Prop :=
   let k := fst e in
   ccid_valid {| c_proto := ck_sp k; c_cp := ck_sc k |} = true /\
@@ -276,6 +293,9 @@ Proof.
   inversion Exy as [[E1 E2]]. apply Hk. destruct k, k2; cbn in *; subst; exact Hk2.
 Qed.
 
+Lemma valid_denom_nonempty d : valid_denom d = true -> d <> "".
+Proof. destruct d; [discriminate|discriminate]. Qed.
+
 (* ---------- C17: the export of an invariant state passes validation ---------- *)
 Theorem export_validates o : Inv o -> validate_genesis (export_genesis o) = Ok tt.
 Proof.
@@ -287,7 +307,7 @@ Proof.
     specialize (Hds _ Hin). cbn [fst snd] in Hds. destruct Hds as [Hd _].
     apply in_combine_l in Hin. destruct (Hok _ Hin) as (Hs & _ & Hden & Hi & Ho & Hpos).
     unfold amount_valid, exp_amount. cbn [ga_denom ga_src ga_dst ga_in ga_out ccid_ok]. rewrite Hs, Hd.
-    apply String.eqb_neq in Hden. rewrite Hden. cbn [negb andb].
+    pose proof (valid_denom_nonempty _ Hden) as Hne. apply String.eqb_neq in Hne. rewrite Hne, Hden. cbn [negb andb].
     apply Z.leb_le in Hi, Ho. rewrite Hi, Ho. cbn [andb].
     destruct Hpos as [Hp|Hp]; apply Z.ltb_lt in Hp; rewrite Hp; [reflexivity|apply orb_true_r]. }
   rewrite Ha. cbn [negb].
@@ -327,10 +347,12 @@ Proof. destruct k; reflexivity. Qed.
 
 Lemma set_amount_exp o0 e d :
   ccid_valid {| c_proto := ak_sp (fst e); c_cp := ak_sc (fst e) |} = true -> ccid_valid d = true -> ak_dst (fst e) = ccid_id d ->
+  valid_denom (ak_denom (fst e)) = true ->
   set_amount o0 (exp_amount e d) = Ok (set_stats o0 (mset cmp_ak (fst e) (snd e) (amounts o0)) (counts o0)).
 Proof.
-  intros Hsv Hd Hk. unfold set_amount, exp_amount. cbn [ga_src ga_dst ga_denom ga_in ga_out ccid_or_zero c_proto c_cp].
-  destruct (ccid_id_no_nul _ Hsv) as [K1 _]. destruct (ccid_id_no_nul _ Hd) as [_ K2]. cbn [c_cp] in K1. rewrite K1, K2. cbn [andb negb].
+  intros Hsv Hd Hk Hden. unfold set_amount, exp_amount. cbn [ga_src ga_dst ga_denom ga_in ga_out ccid_or_zero c_proto c_cp].
+  destruct (ccid_id_no_nul _ Hsv) as [K1 _]. destruct (ccid_id_no_nul _ Hd) as [_ K2]. cbn [c_cp] in K1.
+  rewrite K1, K2, (valid_denom_no_nul _ Hden). cbn [andb negb].
   unfold parse_ccid. rewrite (ccid_roundtrip_with is_domain_string d Hd). rewrite (akey_eta _ _ Hk).
   destruct e as [k [i u]]. reflexivity.
 Qed.
@@ -355,8 +377,8 @@ Proof.
   - cbn. rewrite app_nil_r. destruct o0; reflexivity.
   - destruct ds as [|d ds]; [discriminate|]. cbn [combine map fold_res fst snd].
     inversion Hds as [|? ? [Hd Hk] Hds']; subst. inversion Hok as [|? ? He Hok']; subst. cbn [fst snd] in Hd, Hk.
-    destruct He as (Hsv & _).
-    rewrite (set_amount_exp o0 e d Hsv Hd Hk). cbn [bind].
+    destruct He as (Hsv & _ & Hden & _).
+    rewrite (set_amount_exp o0 e d Hsv Hd Hk Hden). cbn [bind].
     unfold msorted in Hs. rewrite map_app in Hs. cbn [map] in Hs.
     pose proof (prefix_lt cmp_ak order_ak _ _ _ Hs) as Hlt.
     assert (Hm : mset cmp_ak (fst e) (snd e) (amounts o0) = amounts o0 ++ [e]).
@@ -601,7 +623,7 @@ Qed.
 
 Definition key_ok (k : akey) : Prop :=
   ccid_valid {| c_proto := ak_sp k; c_cp := ak_sc k |} = true /\
-  (exists d, ccid_valid d = true /\ ak_dst k = ccid_id d) /\ ak_denom k <> "".
+  (exists d, ccid_valid d = true /\ ak_dst k = ccid_id d) /\ valid_denom (ak_denom k) = true.
 
 Lemma update_amount_inv o k i u o' :
   Inv o -> key_ok k -> 0 <= i -> 0 <= u -> (0 < i \/ 0 < u) ->
@@ -641,8 +663,6 @@ Proof.
   - apply (Forall_mset cmp_ck order_ck); [|assumption]. unfold cnt_ok. cbn [fst snd]. repeat split; try assumption. lia.
 Qed.
 
-Lemma valid_denom_nonempty d : valid_denom d = true -> d <> "".
-Proof. destruct d; [discriminate|discriminate]. Qed.
 
 Lemma update_stats_inv o t f o' cp a :
   Inv o -> f_attrs f = Some a -> counterparty_of a = Some cp ->
@@ -654,15 +674,15 @@ Proof.
   { intros H; inversion H; subst; exact I. }
   apply orb_false_iff in Eval as [Es Ed]. apply negb_false_iff in Es, Ed.
   pose proof (tattr_validate_pos _ Hv) as [Hsa Hda].
-  assert (Hden : t_sdenom t <> "" /\ t_ddenom t <> "").
+  assert (Hden : valid_denom (t_sdenom t) = true /\ valid_denom (t_ddenom t) = true).
   { unfold tattr_validate in Hv. rewrite Es in Hv. cbn [negb] in Hv.
     destruct (coin_valid (t_sdenom t) (t_samt t)) eqn:C1; [|discriminate]. cbn [negb] in Hv.
     destruct (0 <? t_samt t); [|discriminate]. cbn [negb] in Hv.
     destruct (coin_valid (t_ddenom t) (t_damt t)) eqn:C2; [|discriminate].
     unfold coin_valid in C1, C2. apply andb_true_iff in C1 as [C1 _]. apply andb_true_iff in C2 as [C2 _].
-    split; apply valid_denom_nonempty; assumption. }
+    split; assumption. }
   destruct Hden as [Hsd Hdd].
-  assert (Hkey : forall d, d <> "" -> key_ok {| ak_sp := t_sp t; ak_sc := t_sc t; ak_dst := ccid_id {| c_proto := f_pid f; c_cp := cp |}; ak_denom := d |}).
+  assert (Hkey : forall d, valid_denom d = true -> key_ok {| ak_sp := t_sp t; ak_sc := t_sc t; ak_dst := ccid_id {| c_proto := f_pid f; c_cp := cp |}; ak_denom := d |}).
   { intros d Hd. split; [exact Es|]. split; [eexists; split; [exact Ed|reflexivity]|exact Hd]. }
   assert (Hfin : forall o1 o2, Inv o1 ->
             match update_count o1 {| ck_sp := t_sp t; ck_sc := t_sc t; ck_dp := f_pid f; ck_dc := cp |} with
@@ -718,7 +738,7 @@ Proof.
   - apply (Forall_mset cmp_ak order_ak); [|assumption]. unfold amt_ok. cbn [fst snd ak_sp ak_sc ak_dst ak_denom].
     replace {| c_proto := c_proto s; c_cp := c_cp s |} with s by (destruct s; reflexivity).
     split; [exact Vs|]. split; [eexists; split; [exact Vd|reflexivity]|].
-    split; [apply String.eqb_neq; apply negb_true_iff; assumption|].
+    split; [assumption|].
     match goal with H1 : (0 <=? ga_in a) = true, H2 : (0 <=? ga_out a) = true, H3 : _ || _ = true |- _ =>
       apply Z.leb_le in H1, H2; apply orb_true_iff in H3 as [H3|H3]; apply Z.ltb_lt in H3; auto end.
 Qed.
